@@ -23,6 +23,14 @@ touches its `document` parameter:
         assumed + monitored, by name.
 A `document` handed to a helper fn of the same file is followed into that fn (it may only read characters).
 
+Phase 5: for TupleWindows n / Neighbourhood 0 fwd bodies the module also reads the KIND GUARD of the window
+(`window_guards`): every position of the window is tested by `!x.kind.is_word()` / `!x.kind.is_whitespace()` inside an
+`if .. { continue; }` (or a `let Some(x) = .. else { continue; }` + such a test) BEFORE the first `lints.push`, the
+centre of a Neighbourhood is a Word because it comes from `iter_<word class>_indices()`
+-> Model/C12Windows.guarded_rule, proved paragraph-local (no guard position accepts a ParagraphBreak).
+A rule without a complete guard gets no entry (it stays in the residue).  UnclosedQuotes (TokenLoop) is modelled
+EXACTLY (Model/C12Windows.unclosed_quotes): the module raises unless its body is the known one-statement loop.
+
 The module raises when the registry or a body has a shape it does not know (a new way of walking the
 document must be modelled)."""
 import os, re
@@ -239,6 +247,82 @@ def check_merge_macro(files):
         raise RuntimeError("merge_linters.rs: the macro's lint body has an unknown shape: %s" % body)
 
 
+WORD_CLASS_INDEX_ITERS = {"iter_adjective_indices", "iter_preposition_indices", "iter_noun_indices", "iter_verb_indices",
+                          "iter_word_indices"}
+
+
+def _continue_conditions(body, upto):
+    """the conditions of all `if COND { continue; }` statements of body[:upto], split at `||`"""
+    out = []
+    for m in re.finditer(r"\bif\s+([^{}]*?)\s*\{\s*continue;?\s*\}", body[:upto]):
+        out += [c.strip() for c in m.group(1).split("||")]
+    return out
+
+
+def window_guard(doc, body, shape, where):
+    """the kind guard of a TupleWindows / Neighbourhood body as a list of 'PWord' / 'PWhitespace', or None when
+    some position of the window is not guarded before the first push"""
+    push = body.find("lints.push")
+    if push < 0:
+        push = len(body)
+    conds = _continue_conditions(body, push)
+
+    def guard_of(var):
+        w = ("!%s.kind.is_word()" % var) in conds
+        s = ("!%s.kind.is_whitespace()" % var) in conds
+        if w and s:
+            raise RuntimeError("%s: %s is required to be a word AND whitespace" % (where, var))
+        return "PWord" if w else "PWhitespace" if s else None
+
+    m = re.fullmatch(r"\(TupleWindows (\d+)\)", shape)
+    if m:
+        hdr = re.search(r"for\s*\(([^)]*)\)\s*in\s*%s\s*\.\s*tokens\(\)\s*\.\s*tuple_windows\(\)" % doc, body)
+        vs = [x.strip() for x in hdr.group(1).split(",") if x.strip()]
+        g = [guard_of(v) for v in vs]
+        return None if None in g else g
+    m = re.fullmatch(r"\(Neighbourhood (\d+) (\d+)\)", shape)
+    if m:
+        back, fwd = int(m.group(1)), int(m.group(2))
+        if back != 0:
+            return None
+        hdr = re.search(r"for\s+(\w+)\s+in\s+%s\s*\.\s*(iter_\w+_indices)\(\)" % doc, body)
+        if not hdr or hdr.group(2) not in WORD_CLASS_INDEX_ITERS:
+            return None
+        iv = hdr.group(1)
+        g = ["PWord"] + [None] * fwd                       # the centre: a Word (metadata class of a Word token)
+        for k in range(1, fwd + 1):
+            # `let x = document.get_token(i + k);` (an Option, later `x.is_none() -> continue`, `let x = x.unwrap();`)
+            # or `let Some(x) = document.get_token(i + k) else { continue; };`
+            b1 = re.search(r"let\s+(\w+)\s*=\s*%s\s*\.\s*get_token\(\s*%s\s*\+\s*%d\s*\)\s*;" % (doc, iv, k), body[:push])
+            b2 = re.search(r"let\s+Some\((\w+)\)\s*=\s*%s\s*\.\s*get_token\(\s*%s\s*\+\s*%d\s*\)\s*else\s*\{\s*continue;?\s*\}\s*;" % (doc, iv, k), body[:push])
+            if b2:
+                v = b2.group(1)
+            elif b1:
+                v = b1.group(1)
+                if ("%s.is_none()" % v) not in conds or not re.search(r"let\s+%s\s*=\s*%s\.unwrap\(\);" % (v, v), body[:push]):
+                    return None
+            else:
+                return None
+            g[k] = guard_of(v)
+        # no other index than i .. i + fwd
+        return None if None in g else g
+    return None
+
+
+UNCLOSED_QUOTES_BODY = ("{ let mut lints = Vec::new(); for token in document.tokens() { if let "
+                        "TokenKind::Punctuation(Punctuation::Quote(Quote { twin_loc: None })) = token.kind { lints.push(Lint { "
+                        "span: token.span, lint_kind: LintKind::Formatting, suggestions: vec![], "
+                        "message: \"This quote has no termination.\".to_string(), priority: 255, }) } } lints }")
+
+
+def check_unclosed_quotes(body):
+    """Model/C12Windows.unclosed_quotes is this body, statement by statement"""
+    got = re.sub(r"\s+", " ", body).strip()
+    if got != UNCLOSED_QUOTES_BODY:
+        raise RuntimeError("unclosed_quotes.rs: the body of UnclosedQuotes::lint is not the one modelled "
+                           "(Model/C12Windows.unclosed_quotes): %s" % got)
+
+
 def generate(repo):
     files = rule_files(repo)
     check_merge_macro(files)
@@ -251,7 +335,7 @@ def generate(repo):
     bl = pl[m.end() - 1:match_brace(pl, m.end() - 1) + 1]
     d, b = lint_body(bl, "pattern_linter.rs blanket impl")
     blanket = classify(d, b, "pattern_linter.rs blanket impl")
-    rows, seen = [], {}
+    rows, seen, guards = [], {}, {}
     for name, ty in structs:
         if ty not in seen:
             impl = find_impl(files, ty)
@@ -260,6 +344,13 @@ def generate(repo):
                 shape, whole = classify(d, b, impl[1], files[impl[1]])
                 if post_processing(b, impl[1]):
                     shape = "(ThenRemoveOverlaps %s)" % shape
+                g = window_guard(d, b, shape, impl[1])
+                if g is not None:
+                    guards[ty] = g
+                if ty == "UnclosedQuotes":
+                    if shape != "TokenLoop":
+                        raise RuntimeError("unclosed_quotes.rs: shape %s, the model is a token loop" % shape)
+                    check_unclosed_quotes(b)
                 seen[ty] = (impl[1], shape, whole, [])
             elif impl[0] == "pattern":
                 seen[ty] = (impl[1], "ViaPatternLinter", blanket[1], [])
@@ -270,6 +361,8 @@ def generate(repo):
                 seen[ty] = (impl[1], "Merge", blanket[1], impl[2])
         f, shape, whole, subs = seen[ty]
         rows.append((name, ty, f, shape, whole, subs))
+    if "UnclosedQuotes" not in seen:
+        raise RuntimeError("UnclosedQuotes is no longer a struct rule (Model/C12Windows.unclosed_quotes models it)")
     out = ["(* GENERATED by tools/tables/c12rules.py from /repo/harper-core/src/linting — do not edit. *)",
            "From Coq Require Import List String Bool.", "Import ListNotations.", "Open Scope string_scope.", "",
            "(* how the body of Linter::lint walks its `document` (see tools/tables/c12rules.py) *)",
@@ -277,6 +370,8 @@ def generate(repo):
            "| IterChunks | IterSentences | IterParagraphs | KindFilter | ViaPatternLinter",
            "| TokenLoop | TupleWindows (n : nat) | Neighbourhood (back fwd : nat) | Merge",
            "| ThenRemoveOverlaps (inner : rule_shape).", "",
+           "(* what a guarded window position requires of its token: TokenKind::is_word() / TokenKind::is_whitespace() *)",
+           "Inductive kpat := PWord | PWhitespace.", "",
            "(* the blanket `impl<L: PatternLinter> Linter for L` of pattern_linter.rs: (shape, passes get_source() on) *)",
            "Definition blanket_pattern_shape : rule_shape * bool := (%s, %s)." % (blanket[0], "true" if blanket[1] else "false"), "",
            "(* every struct rule of LintGroup::new_curated: (rule name, implementing type, file, shape,",
@@ -287,6 +382,13 @@ def generate(repo):
                                                                   "; ".join('"%s"' % x for x in subs))
                           for n, t, f, s, w, subs in rows))
     out.append("].")
+    out += ["", "(* TupleWindows / Neighbourhood bodies whose every window position is kind-guarded before the first push:",
+            "   (rule name, guard per position) *)",
+            "Definition window_guard_names : list string := [" +
+            "; ".join('"%s"' % n for n, t, _, _, _, _ in rows if t in guards) + "].",
+            "Definition window_guard_pats : list (list kpat) := [" +
+            "; ".join("[%s]" % "; ".join(guards[t]) for n, t, _, _, _, _ in rows if t in guards) + "].",
+            "Definition window_guards : list (string * list kpat) := combine window_guard_names window_guard_pats."]
     out += ["", "(* pattern rules (add_pattern_linter): they run per chunk through the chunk cache *)",
             "Definition pattern_rule_count : nat := %d." % n_pat,
             "(* distinct rule names of the registry (LintGroup::iter_keys, duplicates removed) *)",
